@@ -207,11 +207,11 @@ static void c19_run(void) {
 	}
 	h_settle(20 * MSEC);
 	if (B.body_count > 1) h_viol("body-twice", "body ran %d times", B.body_count);
-	if (B.body_count == 0 && !B.cancel_call) {
-		// nothing observed it yet: give the queue the liveness bound
+	{
+		// nothing may have observed the execution yet: give the queue the liveness bound
 		uint64_t t0 = sim_now();
-		while (!B.body_count && sim_now() - t0 < LIVENESS_NS) sim_sleep_ns(100 * MSEC);
-		if (!B.body_count) h_stuck("never-ran", "an uncancelled block object was submitted but its body never ran");
+		while (((B.body_count == 0 && !B.cancel_call) || (B.body_count == 1 && !B.body_end)) && sim_now() - t0 < LIVENESS_NS) sim_sleep_ns(50 * MSEC);
+		if (!B.body_count && !B.cancel_call) h_stuck("never-ran", "an uncancelled block object was submitted but its body never ran");
 	}
 	if (B.body_count == 1 && !B.body_end) h_stuck("interrupted", "the body started but did not finish");
 	for (int i = 0; i < B.nn; i++) {
